@@ -38,7 +38,7 @@ func (c07) Meta() fw.Meta {
 			"CLI flag agreement is sampled (real process per invocation), not run for every candidate",
 		},
 		Obligations: []string{"newheader_accept", "newheader_reject", "create_accept", "create_reject", "parse_accept", "parse_reject", "takefrom_accept", "takefrom_reject", "open_accept", "open_reject", "cli_accept", "cli_reject",
-			"reject_equal_steps", "reject_out_of_order", "reject_size_beyond_4GiB", "reject_nondividing", "reject_equal_retention", "reject_too_few_points", "reject_zero", "reject_empty", "reject_overflow_offset", "reject_overflow_retention", "reject_method", "reject_xff_nan", "reject_xff_range", "accept_xff_negzero", "reopen_header_equal", "unit_retention_strings"},
+			"reject_equal_steps", "reject_out_of_order", "reject_size_beyond_4GiB", "reject_nondividing", "reject_equal_retention", "reject_too_few_points", "reject_zero", "reject_empty", "reject_overflow_offset", "reject_overflow_retention", "reject_method", "reject_xff_nan", "reject_xff_range", "accept_xff_negzero", "reopen_header_equal", "unit_retention_strings", "route_prefix-of-parsed-list", "route_parsed-list-extended", "route_header-list-extended", "route_header-list-cut", "route_backing-array-used-by-shorter-header", "takefrom_into_used_receiver"},
 	}
 }
 
@@ -205,6 +205,7 @@ func (c07) Run(c *fw.Ctx) {
 	}
 	var sample []string
 	hashParts := ""
+	var reused wt.Header // decoded into again and again: a decoder's verdict must not depend on what the receiver held before
 	for j := 0; j < 40 && !c.Violated(); j++ {
 		cd := (c07{}).genCandidate(c, j)
 		hashParts += fw.JSON(cd)
@@ -298,6 +299,29 @@ func (c07) Run(c *fw.Ctx) {
 				hdr = h
 			}
 		}
+		// (1b) the same list arriving by other routes: lists that already carry offsets (parsed from a longer or shorter
+		// retention string, taken from a header built before, the same backing array used twice) must get the same verdict
+		if mOK && xOK {
+			for _, rt := range c07Routes(cd.Archs, aa) {
+				if rt.list == nil {
+					continue
+				}
+				c.Count("route_"+rt.name, 1)
+				detail["route"] = rt.name
+				_, err := wt.NewHeader(wt.AggregationMethod(cd.Method), cd.Xff, rt.list)
+				verdict("newheader", err == nil, wantAll, err)
+				if rt.createToo && c.Index%2 == 0 {
+					p := filepath.Join(c.TmpDir(), fmt.Sprintf("c07-route-%d.wsp", j))
+					db, err := wt.Create(p, rt.list, wt.AggregationMethod(cd.Method), cd.Xff)
+					verdict("create", err == nil, wantAll, err)
+					if err == nil {
+						db.Close()
+					}
+					os.Remove(p)
+				}
+				delete(detail, "route")
+			}
+		}
 		// (2) Create + sync + reopen
 		l := model.Layout{Archs: cd.Archs, Method: int(cd.Method), Xff: cd.Xff}
 		small := true
@@ -381,6 +405,14 @@ func (c07) Run(c *fw.Ctx) {
 			if err == nil && !(len(rest) == 2 && rest[0] == 0xAA) {
 				c.Violationf("takefrom-remainder", detail, "Header.TakeFrom left %d bytes", len(rest))
 			}
+			detail["route"] = "receiver-used-before"
+			_, err2 := reused.TakeFrom(append(enc, 0xAA, 0xBB))
+			verdict("takefrom", err2 == nil, wantAll, err2)
+			c.Count("takefrom_into_used_receiver", 1)
+			if err == nil && err2 == nil && (reused.String() != h.String() || !reused.ArchiveInfoList().Equal(h.ArchiveInfoList()) || len(reused.ArchiveInfoList()) != len(cd.Archs)) {
+				c.Violationf("takefrom-depends-on-receiver", detail, "decoding into a header used before gives %q, into a fresh one %q", reused.String(), h.String())
+			}
+			delete(detail, "route")
 			_ = stepsFit
 			var size int64 = int64(len(enc))
 			for _, a := range cd.Archs {
@@ -475,6 +507,61 @@ func (c07) Run(c *fw.Ctx) {
 	if c.Index < 64 {
 		c.Sample(fw.J{"candidates": sample})
 	}
+}
+
+type c07Route struct {
+	name      string
+	list      wt.ArchiveInfoList
+	createToo bool
+}
+
+// c07Routes rebuilds the candidate list by the ways a caller gets hold of one besides NewArchiveInfo.
+func c07Routes(archs []model.Arch, fresh wt.ArchiveInfoList) []c07Route {
+	var out []c07Route
+	expressible := func(as []model.Arch) bool {
+		for _, a := range as {
+			if a.Ret() > math.MaxInt32 || a.Step > math.MaxInt32 {
+				return false
+			}
+		}
+		return len(as) > 0
+	}
+	n := len(archs)
+	// a prefix of a longer parsed list (offsets computed for n+1 archives)
+	if n >= 1 && expressible(archs) {
+		last := archs[n-1]
+		ext := append(append([]model.Arch(nil), archs...), model.Arch{Step: last.Step * 2, Points: last.Points})
+		if uint64(last.Step)*2 <= math.MaxInt32 && expressible(ext) {
+			if pl, err := wt.ParseArchiveInfoList(model.Layout{Archs: ext}.RetentionString()); err == nil && len(pl) == n+1 {
+				out = append(out, c07Route{"prefix-of-parsed-list", pl[:n], true})
+			}
+		}
+	}
+	// a shorter parsed list extended by a fresh archive (offsets computed for n-1 archives)
+	if n >= 2 && expressible(archs[:n-1]) {
+		if pl, err := wt.ParseArchiveInfoList(model.Layout{Archs: archs[:n-1]}.RetentionString()); err == nil && len(pl) == n-1 {
+			out = append(out, c07Route{"parsed-list-extended", append(pl, fresh[n-1]), true})
+		}
+	}
+	// the list of a header built before from its first archives, then the whole backing array
+	if n >= 2 {
+		shared := append(wt.ArchiveInfoList(nil), fresh...)
+		if h, err := wt.NewHeader(wt.Average, 0.5, shared[:n-1]); err == nil {
+			out = append(out, c07Route{"backing-array-used-by-shorter-header", shared, false})
+			out = append(out, c07Route{"header-list-extended", append(append(wt.ArchiveInfoList(nil), h.ArchiveInfoList()...), fresh[n-1]), true})
+		}
+	}
+	// the list of a header built from a longer list, cut
+	if n >= 1 {
+		last := archs[n-1]
+		if uint64(last.Step)*2 <= math.MaxInt32 {
+			longer := append(append(wt.ArchiveInfoList(nil), fresh...), wt.NewArchiveInfo(wt.Duration(int32(last.Step*2)), last.Points))
+			if h, err := wt.NewHeader(wt.Average, 0.5, longer); err == nil {
+				out = append(out, c07Route{"header-list-cut", h.ArchiveInfoList()[:n], true})
+			}
+		}
+	}
+	return out
 }
 
 func minI(a, b int) int {
